@@ -6,6 +6,7 @@ import math
 from ..facets import unit as Un
 from ..facets.lenclass import LenClass
 from ..facets.pred import Pred
+from ..facets.poly import PolyFacet
 from ..facets.range import Iv, RangeFacet
 from ..ir import walk
 from ..loader import AnalysisError
@@ -114,6 +115,42 @@ def run(ck, ctx):
                   other.op == "Subscript" and g.same(other.args[1], em) and
                   g.same(other.args[0], D.A("costhetaTrSubV")), other, "RegionGeom.mcintegral", g.show(other, 2))
     ck.guard(accessors, "R02.3")
+
+    # ---------------------------------------------------------------- R02.8 the point at distance s along a trajectory
+    def along():
+        """In the line-of-sight frame the reported point is  R n + s t  with t the unit vector of the trajectory:
+        components  s sin(theta) cos(phi),  s sin(theta) sin(phi) + R cos(elev),  s cos(theta) + R sin(elev)
+        (theta: angle between trajectory and line of sight, phi: its azimuth, elev: elevation of the detector seen
+        from the spot).  The three are searched by formula among the quantities the function computes."""
+        dist = I.input("dist_along_traj_", kind="array")
+        r = I.run_method(D.obj, "find_lat_long_along_traj", [dist], st=D.st.copy())
+        if r.value is None:
+            raise AnalysisError("find_lat_long_along_traj has no normal exit")
+        fnq = "RegionGeom.find_lat_long_along_traj"
+        roles = {"s": dist, "t": D.A("thetaTrSubV"), "p": D.A("phiTrSubV"), "e": D.A("elevAngVSubN"),
+                 "R": I.res(I.load_attr(D.obj, "earth_radius", D.st, None, None), D.st)}
+        P_ = PolyFacet(I, opaque_ids={n.id for n in roles.values()}, gather_transparent=True)
+        keys = {g.vn(n) for n in roles.values()}
+        P_.opaque = (lambda n, _k=keys, _o=P_.opaque: _o(n) or g.vn(n) in _k)
+        env = {k: P_.of(n) for k, n in roles.items()}
+        cone = [n for n in walk([I.snapshot(r.value, r.st)]) if n.fn is not None and
+                n.fn.module.name.endswith("region_geometry") and n.op in ("BinOp", "Call") and n.id >= dist.id]
+        for what, ref in (("x = s sin(theta) cos(phi)", "s*sin(t)*cos(p)"),
+                          ("y = s sin(theta) sin(phi) + R cos(elev)", "s*sin(t)*sin(p) + R*cos(e)"),
+                          ("z = s cos(theta) + R sin(elev)", "s*cos(t) + R*sin(e)")):
+            want = P_.ref(ref, env)
+            found = False
+            for n in cone:
+                try:
+                    if P_.equal(P_.of(n), want):
+                        found = True
+                        break
+                except Exception:       # noqa: BLE001
+                    continue
+            ck.ob("R02.8", f"point at distance s along a kept trajectory, line-of-sight frame: {what}", found,
+                  r.value, fnq, f"searched {len(cone)} quantities of the function",
+                  construct=f"{fnq}: component {what.split(' ')[0]} of R n + s t")
+    ck.guard(along, "R02.8")
 
     # ---------------------------------------------------------------- R02.4 units
     def units():
